@@ -85,6 +85,75 @@ def expose(model):
     return m, observed, unobs
 
 
+def observe_function_bodies(model, feeds, cmp, acc=None):
+    """Function-body annotations do not survive inlining, so they are observed per call site: the runtime values of a top-level
+    call node's inputs are read from the model itself, then the FunctionProto is run as a stand-alone graph whose annotated
+    intermediates (its value_info) are extra outputs *without* a declared type, and every runtime result is compared with what
+    the function's value_info declares.  One FunctionProto shared by two call sites must be right for both."""
+    import onnx
+    from onnx import helper
+    from vf import onnxutil
+
+    fdefs = {(f.domain, f.name): f for f in model.functions}
+    calls = [n for n in model.graph.node if (n.domain, n.op_type) in fdefs]
+    if not calls:
+        return 0
+    # 1. runtime values of every call input (graph inputs, initializers, or intermediates exposed as outputs)
+    init = {i.name: onnx.numpy_helper.to_array(i) for i in model.graph.initializer}
+    want = sorted({i for n in calls for i in n.input if i and i not in feeds and i not in init})
+    vals = dict(feeds)
+    vals.update(init)
+    if want:
+        m2 = copy.deepcopy(model)
+        have = {o.name for o in m2.graph.output}
+        for w in want:
+            if w not in have:
+                m2.graph.output.append(helper.make_empty_tensor_value_info(w))
+        try:
+            s = onnxutil.session(m2)
+            names = [o.name for o in s.get_outputs()]
+            got = dict(zip(names, s.run(None, {k: v for k, v in feeds.items() if k in {i.name for i in s.get_inputs()}})))
+        except Exception as e:
+            if acc:
+                acc.tally("function_bodies", "call_inputs_not_observable")
+            return 0
+        vals.update({w: got[w] for w in want if w in got})
+    nobs = 0
+    for n in calls:
+        f = fdefs[(n.domain, n.op_type)]
+        if any(i not in vals for i in n.input if i) or len(n.input) != len(f.input):
+            if acc:
+                acc.tally("function_bodies", "call_skipped")
+            continue
+        ann = {vi.name: vi for vi in f.value_info}
+        produced = [o for nd in f.node for o in nd.output if o]
+        outs = [o for o in produced if o in ann or o in f.output]
+        g = helper.make_graph(
+            list(f.node), "fn_body",
+            [helper.make_tensor_value_info(fi, helper.np_dtype_to_tensor_dtype(np.asarray(vals[ci]).dtype), list(np.asarray(vals[ci]).shape))
+             for fi, ci in zip(f.input, n.input)],
+            [helper.make_empty_tensor_value_info(o) for o in dict.fromkeys(outs)])
+        imports = list(f.opset_import) or list(model.opset_import)
+        have_dom = {o.domain for o in imports}
+        imports += [o for o in model.opset_import if o.domain not in have_dom]
+        m3 = helper.make_model(g, opset_imports=imports, functions=[x for x in model.functions], ir_version=model.ir_version)
+        try:
+            s3 = onnxutil.session(m3)
+            r3 = dict(zip([o.name for o in s3.get_outputs()], s3.run(None, {fi: np.asarray(vals[ci]) for fi, ci in zip(f.input, n.input)})))
+        except Exception as e:
+            if acc:
+                acc.tally("function_bodies", "standalone_body_not_runnable")
+                acc.tally("expose_errors", "fn: " + str(e)[:80])
+            continue
+        for name, arr in r3.items():
+            if name in ann:
+                nobs += 1
+                cmp(ann[name], arr, f"function:{f.name}")
+        if acc:
+            acc.tally("function_bodies", "call_site_observed")
+    return nobs
+
+
 def check_model_feeds(model, feeds, sigbase, case, acc=None, traced=False):
     """feeds: dict name -> array.  Returns violations."""
     from vf import onnxutil
@@ -141,6 +210,14 @@ def check_model_feeds(model, feeds, sigbase, case, acc=None, traced=False):
             continue
         nobs += 1
         cmp(vi, got[name], sc, dp)
+    if len(model.functions):
+        try:
+            nfn = observe_function_bodies(model, feeds, cmp, acc)
+            nobs += nfn
+            unobs = max(0, unobs - nfn)
+        except Exception as e:
+            if acc:
+                acc.tally("function_bodies", f"harness_skip:{type(e).__name__}")
     if acc:
         acc.count("annotated_values_observed", nobs)
         acc.count("annotated_values_unobservable", unobs)
@@ -151,7 +228,8 @@ def check_model_feeds(model, feeds, sigbase, case, acc=None, traced=False):
         if (scope, facet) in seen:
             continue
         seen.add((scope, facet))
-        out.append({"sig": dict(sigbase, scope=scope.split("/")[-1] if "/" in scope else scope, facet=facet), "case": case, "detail": text})
+        sc_ = "function" if scope.startswith("function:") else (scope.split("/")[-1] if "/" in scope else scope)
+        out.append({"sig": dict(sigbase, scope=sc_, facet=facet), "case": case, "detail": text})
     return out, nobs
 
 
@@ -282,6 +360,41 @@ def check_cf(body, stacked, acc=None):
         if vs:
             break
     out += _postprocess_check(fn, specs, {}, sigbase, case, acc)
+    return out
+
+
+def check_hist(history, variant, acc=None):
+    """Call-site histories of @onnx_function blocks (C07's grammar): the shared function bodies are observed per call site."""
+    import jax
+    from vf import jaxutil
+    from vf.props import c07
+
+    out = []
+    fn = c07.build(history, variant)
+    case = {"kind": "hist", "history": history, "variant": variant}
+    gated = any(s[0] == "gate" for s in history)
+    kw = {"input_params": {"double": True, "shift": False}} if gated else {}
+    try:
+        model = jaxutil.to_onnx(fn, [jax.ShapeDtypeStruct(("B", 4), np.float32)], **kw)
+    except Exception:
+        if acc:
+            acc.tally("status", "hist_export_rejected")
+            acc.case()
+        return out
+    sigbase = {"layer": "generated", "structure": "hist"}
+    for B in (3, 1, 5):
+        feeds = {"in_0": (np.arange(B * 4, dtype=np.float32).reshape(B, 4) * 0.37 - 1.1)}
+        if gated:
+            feeds.update({"double": np.asarray(True), "shift": np.asarray(B == 3)})
+        res = check_model_feeds(model, feeds, sigbase, dict(case, B=B), acc)
+        if not res:
+            continue
+        vs, nobs = res
+        if acc:
+            acc.case(key=("hist", digest([history, variant]), B), nontrivial=bool(nobs and B != 3))
+        out += vs
+        if vs:
+            break
     return out
 
 
@@ -480,15 +593,16 @@ def work(sh):
         import hypothesis
         from hypothesis import HealthCheck, Phase, given, settings, strategies as st
         from vf import progen
-        from vf.props import c06
+        from vf.props import c06, c07
 
         @hypothesis.seed(derive_seed(sh["seed"], "c08gen", sh["shard"]))
         @settings(max_examples=sh["examples"], deadline=None, database=None, suppress_health_check=list(HealthCheck),
                   phases=[Phase.generate], report_multiple_bugs=False)
         @given(st.one_of(st.tuples(st.just("cf"), c06.body_strategy(2, unsupported_p=10**6), st.sampled_from([False, "xs", "len3"])),
-                         st.tuples(st.just("prog"), progen.programs(max_stmts=7, symbolic=True), st.just(None))))
+                         st.tuples(st.just("prog"), progen.programs(max_stmts=7, symbolic=True), st.just(None)),
+                         st.tuples(st.just("hist"), c07.history_strategy(), st.sampled_from(["fn", "uniq"]))))
         def t(c):
-            vs = check_cf(c[1], c[2], acc) if c[0] == "cf" else check_prog(c[1], acc)
+            vs = check_cf(c[1], c[2], acc) if c[0] == "cf" else (check_hist(c[1], c[2], acc) if c[0] == "hist" else check_prog(c[1], acc))
             if not vs and len(acc.samples) < 2:
                 acc.samples.append({"structure": c[0], "program": str(c[1])[:240]})
             for v in vs:
@@ -503,6 +617,8 @@ def replay(case):
         return check_catalog(case["id"], None, bindings=tuple(case.get("bindings", (2, 3, 5))))
     if case["kind"] == "cf":
         return check_cf(case["body"], case["stacked"], None)
+    if case["kind"] == "hist":
+        return check_hist(case["history"], case["variant"], None)
     if case["kind"] == "graph":
         return check_graph_spec(case["spec"], None)
     if case["kind"] == "shapeprog":
